@@ -299,7 +299,22 @@ func (x *Unit) spField(st *State, v Val, name string, c *specCtx, e ast.Node) Va
 		x.specErr(e, "no field %s in %v", name, v.Typ)
 		return Val{x.fresh("bad", SInt), nil}
 	}
-	return x.readPath(st, v, path)
+	r := x.readPath(st, v, path)
+	x.specTypingFacts(r)
+	return r
+}
+
+// specTypingFacts: state-independent facts of a value read in a contract (sound by Go's type system).
+func (x *Unit) specTypingFacts(r Val) {
+	if x.binders > 0 || r.Typ == nil {
+		return
+	}
+	if r.Sort == SInt && isUnsigned(r.Typ) {
+		x.fact(Cmp(">=", r.T, IntLit(0)))
+	}
+	if _, isSlice := x.u.sliceElem[r.Sort]; isSlice {
+		x.fact(And(Cmp(">=", x.u.SliceLen(r.T), IntLit(0)), Cmp(">=", x.u.SliceCap(r.T), x.u.SliceLen(r.T))))
+	}
 }
 
 // pkgOf: unexported fields are looked up relative to the package that declares the type.
@@ -346,9 +361,6 @@ func (x *Unit) readPath(st *State, v Val, path []int) Val {
 	if ct, ok := under(r.Typ).(*types.Chan); ok && x.binders == 0 {
 		x.u.DeclFun("chantype", "(Int) Int")
 		x.fact(Or(Eq(r.T, IntLit(0)), Eq(App(SInt, "chantype", r.T), IntLit(int64(x.u.TypeID(ct.Elem()))))))
-	}
-	if x.binders == 0 && r.Sort == SInt && isUnsigned(r.Typ) {
-		x.fact(Cmp(">=", r.T, IntLit(0)))
 	}
 	// references stored in a state were allocated by the time of that state
 	if x.binders == 0 && r.Sort == SInt {
